@@ -82,6 +82,9 @@ type HarnessRun struct {
 	oblLabels   map[string]int
 	maxPaths    int
 	seenViol    map[string]bool
+	accPosed    map[string]string // acceptance obligations (vx.Accepts): label -> position where posed
+	accWitness  map[string]bool
+	accUnknown  map[string]bool
 	t0          time.Time
 }
 
@@ -404,6 +407,15 @@ type HarnessResult struct {
 	Err         string
 }
 
+func setKeysS(m map[string]string) []string {
+	var out []string
+	for k := range m {
+		out = append(out, k)
+	}
+	sort.Strings(out)
+	return out
+}
+
 func setKeys(m map[string]bool) []string {
 	var out []string
 	for k := range m {
@@ -421,6 +433,18 @@ func (h *HarnessRun) Result(err error) *HarnessResult {
 	if err != nil {
 		r.Err = err.Error()
 	}
+	// acceptance obligations: some execution reaching the point must admit the condition (decided by a sat query
+	// per path); none doing so means the code refuses every such request
+	for _, l := range setKeysS(h.accPosed) {
+		if h.accWitness[l] {
+			continue
+		}
+		if h.accUnknown[l] {
+			r.Unknowns = append(r.Unknowns, "accepts "+l)
+			continue
+		}
+		r.Violations = append(r.Violations, &Violation{Harness: h.spec.Name, Pkg: h.spec.Pkg, Label: l, Msg: "no execution reaching this point admits the condition: every such request is refused", Pos: h.accPosed[l]})
+	}
 	for _, l := range h.spec.Reach {
 		if h.reach[l] == 0 {
 			r.MissingReach = append(r.MissingReach, l)
@@ -432,7 +456,7 @@ func (h *HarnessRun) Result(err error) *HarnessResult {
 func NewHarnessRun(P *Program, spec *HarnessSpec, tier string) *HarnessRun {
 	h := &HarnessRun{spec: spec, P: P, tier: tier, unwind: 64, maxSteps: 2000000, solverMs: 20000,
 		reach: map[string]int{}, stubs: map[string]bool{}, sqls: map[string]bool{}, funcs: map[string]bool{}, bounds: map[string]bool{},
-		oblLabels: map[string]int{}, seenViol: map[string]bool{}, opts: map[string]int{}, maxPaths: 200000}
+		oblLabels: map[string]int{}, seenViol: map[string]bool{}, accPosed: map[string]string{}, accWitness: map[string]bool{}, accUnknown: map[string]bool{}, opts: map[string]int{}, maxPaths: 200000}
 	if tier == "thorough" {
 		h.unwind = 128
 		h.solverMs = 120000
